@@ -625,3 +625,49 @@ def execute_cli(w, timeout=60):
         return r
     finally:
         shutil.rmtree(base, ignore_errors=True)
+
+
+def gen_world_many_candidates(rng, k):
+    """C17 / C02: a piece spanning two files, each with k unrelated readable same-length candidates next to the
+    genuine one — the search must stay exhaustive however many candidates there are (more candidates never hurt)"""
+    w = World()
+    fa = TFile(6, [b"a.bin"], b"AAAAaa")
+    fb = TFile(6, [b"b.bin"], b"bbBBBB")
+    g = GT(b"many", 4, [fa, fb], True)
+    w.gts = [g]; w.docs = [g.doc]
+    w.dirs.add(w.export)
+    w.scan = [(b"genuine",), (b"extra",)]
+    w.add_file((b"genuine", b"a.bin"), fa.content)
+    w.add_file((b"genuine", b"b.bin"), fb.content)
+    w.add_file((b"extra", b".keep"), b"k")
+    for i in range(k):
+        # pairwise distinct at [0..2] and [4..6]
+        body = bytes([1 + i // 250, 1 + i % 250]) + b"zz" + bytes([1 + i % 250, 1 + i // 250])
+        w.add_file((b"extra", b"x%04d" % i), body)
+    w.add_file((b"bystander", b"note.txt"), b"do not touch")
+    w.tag = "many candidates (%d per file)" % k
+    return w
+
+
+def gen_world_misfiled(rng):
+    """C01: export images that hold ANOTHER torrent file's (correct) bytes — a mis-filed download. The matcher may
+    legitimately use such an image as the source of the other file's segment; what is written must still be the
+    bytes that were hashed, not whatever the source holds at write time."""
+    w = World()
+    n = rng.range(2, 3)
+    ln = rng.range(2, 6)
+    files = [TFile(ln, [b"f%d" % i], gen_content(rng, ln)) for i in range(n)]
+    L = rng.choice([ln * n, ln * n + 3, ln, 4])
+    g = GT(b"misfiled", L, files, True)
+    w.gts = [g]; w.docs = [g.doc]
+    w.dirs.add(w.export)
+    w.scan = [(b"scan0",)]
+    w.add_file((b"scan0", b".keep"), b"k")
+    i, j = rng.shuffle(list(range(n)))[:2]
+    w.add_file(tuple(g.target(w.export, files[i])), files[j].content)       # image of file i holds file j's bytes
+    for k, f in enumerate(files):
+        if k != j or rng.chance(1, 3):
+            w.add_file((b"scan0", b"src%d" % k), f.content)
+    w.add_file((b"bystander", b"note.txt"), b"do not touch")
+    w.tag = "mis-filed export image"
+    return w
